@@ -89,6 +89,8 @@ func histVerdicts(ops []histOp) []string {
 	handleName := []string{} // template name of each handle ("?" unknown)
 	graph := map[int]map[string][]string{}
 	weird := false
+	detached := map[int]int{} // handles whose object t.New(name) has replaced (at which op): from then on they denote a new, empty set of their own
+	isDetached := func(h, k int) bool { at, ok := detached[h]; return ok && at <= k }
 	targetNS := make([]int, len(ops))
 	for k, op := range ops {
 		targetNS[k] = -1
@@ -110,6 +112,9 @@ func histVerdicts(ops []histOp) []string {
 				for i, nm := range handleName {
 					if nm == op.name && i < len(nsOfHandle) && nsOfHandle[i] == targetNS[k] {
 						weird = true // New on an existing name detaches the old object
+						if _, done := detached[i]; !done {
+							detached[i] = k
+						}
 					}
 				}
 				nsOfHandle = append(nsOfHandle, targetNS[k])
@@ -160,7 +165,7 @@ func histVerdicts(ops []histOp) []string {
 		r := run.results[k]
 		return strings.HasPrefix(r, "H:") || r == "parseok" || r == "info"
 	}
-	var verdicts []string
+	var verdicts, frozenVerdicts []string
 	everFailed := map[string]bool{} // ns/name that returned an analysis error
 	reachedBefore := map[int]map[string]bool{}
 	for k, op := range ops {
@@ -211,12 +216,54 @@ func histVerdicts(ops []histOp) []string {
 				pres = pr.results[len(proj)-1]
 				psame = b01(pres == res && pr.outputs[len(proj)-1] == out)
 			}
+			// frozen: once the name space has been executed, no Parse call may change a later result: the same
+			// history without the Parse calls made after the first execution of this name space gives the same
+			// result (Parse through this set's handles fails; through other sets' handles - clones, a handle
+			// detached by t.New - it concerns those sets only)
+			k0 := -1
+			for j := 0; j < k; j++ {
+				if isExecKind(ops[j].kind) && targetNS[j] == ns && run.results[j] != "badop" {
+					k0 = j
+					break
+				}
+			}
+			if k0 >= 0 && ns >= 0 && !isDetached(op.h, k) {
+				var np []histOp
+				dropped := false
+				for j := 0; j < k; j++ {
+					if j > k0 && ops[j].kind == "P" {
+						dropped = true
+						continue
+					}
+					np = append(np, ops[j])
+				}
+				if dropped {
+					np = append(np, op)
+					_, nr := execHistory(np)
+					// what a set does after an API call has panicked is C08's business
+					panicked := false
+					for j := 0; j <= k; j++ {
+						if strings.Contains(run.results[j], "panic") {
+							panicked = true
+						}
+					}
+					for _, r := range nr.results {
+						if strings.Contains(r, "panic") {
+							panicked = true
+						}
+					}
+					if !panicked {
+						same := nr.results[len(np)-1] == res && nr.outputs[len(np)-1] == out
+						frozenVerdicts = append(frozenVerdicts, fmt.Sprintf("F%d:%s", k, b01(same)))
+					}
+				}
+			}
 			// sticky: an earlier analysis failure of this template
 			key := fmt.Sprintf("%d/%s", ns, execName(k))
 			sticky := "1"
 			// "returns an error and writes nothing": the analysis error, or - after the name was redefined by
 			// t.New, which leaves an empty template - the incomplete / undefined template error
-			if everFailed[key] && !((strings.HasPrefix(res, "escape:") || res == "incomplete" || res == "undefined") && out == "") {
+			if everFailed[key] && !isDetached(op.h, k) && !((strings.HasPrefix(res, "escape:") || res == "incomplete" || res == "undefined") && out == "") {
 				sticky = "0"
 			}
 			if strings.HasPrefix(res, "escape:") {
@@ -296,6 +343,7 @@ func histVerdicts(ops []histOp) []string {
 			}
 		}
 	}
+	verdicts = append(verdicts, frozenVerdicts...)
 	v := strings.Join(verdicts, ";")
 	if v == "" {
 		v = "-"
@@ -317,7 +365,9 @@ func init() {
 func genPropHistories(c *caseWriter, stream string, quick bool) {
 	emitH := func(ops []histOp) { emit(c, stream, encodeOps(ops)) }
 	for _, s := range extraSeeds {
-		emitH(decodeOps(s))
+		if ops := decodeOps(s); len(ops) > 0 {
+			emitH(ops)
+		}
 	}
 	for _, d := range defPool {
 		g := callees(d, "main")
@@ -350,17 +400,19 @@ func genPropHistories(c *caseWriter, stream string, quick bool) {
 				}
 			}
 		}
-		// a handle obtained by Lookup, the set executed, the name redefined through t.New, then Parse through the
-		// OLD handle (it belongs to a set of its own now): the executed set must not see that definition
+		// a handle obtained by Lookup (handle 1), the set executed, the name redefined through t.New (handle 2), then
+		// Parse through the OLD handle (it belongs to a set of its own now): the executed set must not see that definition
 		for i, a := range names {
 			if i >= 3 {
 				break
 			}
-			late := "{{define \"" + a + "\"}}<script>alert(1)</script>{{.A}}{{end}}late"
+			late := "<script>alert(1)</script>{{.A}}" // parsed through the old handle it is the new body of its own name
 			emitH(append(append([]histOp{}, base...), histOp{kind: "L", h: 0, name: a}, histOp{kind: "Y", h: 0, name: a}, histOp{kind: "S", h: 0, name: a},
-				histOp{kind: "P", h: 2, text: late}, histOp{kind: "Y", h: 0, name: a}, histOp{kind: "X", h: 0}, histOp{kind: "Y", h: 0, name: "main"}, histOp{kind: "X", h: 2}))
-			emitH(append(append([]histOp{}, base...), histOp{kind: "L", h: 0, name: a}, histOp{kind: "X", h: 0}, histOp{kind: "S", h: 2, name: a},
-				histOp{kind: "P", h: 2, text: late}, histOp{kind: "P", h: 4, text: late}, histOp{kind: "Y", h: 0, name: a}, histOp{kind: "X", h: 0}))
+				histOp{kind: "P", h: 1, text: late}, histOp{kind: "Y", h: 0, name: a}, histOp{kind: "X", h: 0}, histOp{kind: "Y", h: 0, name: "main"}, histOp{kind: "X", h: 1}))
+			emitH(append(append([]histOp{}, base...), histOp{kind: "L", h: 0, name: a}, histOp{kind: "X", h: 0}, histOp{kind: "S", h: 0, name: a},
+				histOp{kind: "P", h: 1, text: late}, histOp{kind: "X", h: 0}, histOp{kind: "Y", h: 0, name: "main"}, histOp{kind: "Y", h: 0, name: a}))
+			emitH(append(append([]histOp{}, base...), histOp{kind: "L", h: 0, name: a}, histOp{kind: "X", h: 0}, histOp{kind: "S", h: 1, name: a},
+				histOp{kind: "P", h: 1, text: late}, histOp{kind: "P", h: 2, text: late}, histOp{kind: "Y", h: 0, name: a}, histOp{kind: "X", h: 0}))
 		}
 		// clone, execute the clone, then the original, late parses on both
 		emitH(append(append([]histOp{}, base...), histOp{kind: "C", h: 0}, histOp{kind: "X", h: 1}, histOp{kind: "P", h: 1, text: "late"}, histOp{kind: "X", h: 0},
